@@ -61,9 +61,14 @@ Hier == Is("Hier") /\ fails' = HierFails /\ l' = l + 1
 (* C17: the continuous solver honours real-valued weights *)
 NetSolveFails ==
     (IF Ev.finite THEN {} ELSE {F("C17", <<"non-finite solution">>, "net-finite")}) \cup
-    (IF Ev.finite /\ ~Stationary(Ev.x0, Ev.nets, Ev.n, IF Ev.tol >= 6 THEN 2 ELSE 16)
+    (IF Ev.finite /\ ~Stationary(Ev.x0, EffectiveNets(Ev.nets, Ev.via), Ev.n, IF Ev.tol >= 6 THEN 2 ELSE 16)
      THEN {F("C17", <<"initial star solution is not the weighted least-squares optimum", Ev.x0>>, "net-optimum")} ELSE {})
 NetSolve == Is("NetSolve") /\ fails' = NetSolveFails /\ l' = l + 1
+\* the net list held by the model, whichever public path built it, carries every pin and the real-valued weight of every net
+NetBuildFails ==
+    (IF BuiltAs(Ev.built, Ev.nets, Ev.via, 1) THEN {} ELSE {F("C17", <<"the model built from the net list differs from it (pins or weights)", Ev.via, Ev.built>>, "net-build")}) \cup
+    (IF BuiltAs(Ev.built8, Ev.nets, Ev.via, 8) THEN {} ELSE {F("C17", <<"the model built with all weights divided by 8 does not carry them", Ev.via, Ev.built8>>, "net-build")})
+NetBuild == Is("NetBuild") /\ fails' = NetBuildFails /\ l' = l + 1
 \* scaling all weights and penalty strengths by a common factor leaves the solution unchanged: bitwise for powers of
 \* two, within tolerance (positions x 128) otherwise
 SeqClose(a, b, tol) == Len(a) = Len(b) /\ \A i \in 1..Len(a) : Abs(a[i] - b[i]) <= tol
@@ -105,7 +110,7 @@ BadFate == /\ (Is("Abort") \/ Is("Sanitizer") \/ Is("Timeout"))
                           <<Ev.e, Ev.stderr>>, Ev.scen \o "-fate")}
            /\ l' = l + 1
 
-Next == DetRes \/ RowHist \/ Transport \/ T1d \/ Hier \/ NetSolve \/ NetScale \/ AlgoBegin \/ BadFate
+Next == NetBuild \/ DetRes \/ RowHist \/ Transport \/ T1d \/ Hier \/ NetSolve \/ NetScale \/ AlgoBegin \/ BadFate
 Spec == Init /\ [][Next]_<<l, fails>>
 
 RECURSIVE SeqOfSet(_)
